@@ -9,6 +9,7 @@ From Coq Require Import Lia Permutation.
 (* ---------- what one successful epoch guarantees ---------- *)
 Record epoch_post (o : options) (p p' : population) : Prop := {
   ep_part : Part p';
+  ep_clean : Fresh p';
   ep_size : zlen (p_orgs p') = o_pop_size o;
   ep_fresh : forall k, In k (p_orgs p') -> p_next_key p <= k;
   ep_key : p_next_key p <= p_next_key p';
@@ -35,7 +36,7 @@ Proof.
     apply in_map_iff in Hi. destruct Hi as (z & <- & Hz). now apply HP. }
   apply reproduce_ok in H2; [|exact A1| |exact Hl1].
   2:{ rewrite A7. eapply hbound_frame; [exact A4|apply HP]. }
-  destruct H2 as (babies & [B1 B2 B3 B4 B5 B6 B7 B8 B9 B10 (news & B11 & B11') B12 B13]).
+  destruct H2 as (babies & [B1 B2 B3 B4 B5 B6 B7 B7' B8 B9 B10 (news & B11 & B11') B12 B13]).
   assert (Hbab : forall k, In k babies <-> p_next_key p1 <= k < p_next_key p2).
   { intros k. rewrite B1. apply zrange_in. }
   apply (finalize_ok _ _ _ _ _ babies) in H3; auto.
@@ -43,7 +44,7 @@ Proof.
   2:{ now rewrite B5. }
   2:{ rewrite B1. apply zrange_nodup. }
   2:{ intros k Hk Hb. rewrite B5 in Hk. apply B6 in Hk. apply Hbab in Hb. lia. }
-  destruct H3 as [C1 C2 C3 (l3 & C4 & C4') C5 C6].
+  destruct H3 as [C1 C2 C3 (l3 & C4 & C4') C4'' C5 C6].
   assert (Elen : zlen (p_orgs p') = o_pop_size o).
   { rewrite <- B2. unfold zlen. f_equal. now apply Permutation_length. }
   (* where a species of p' comes from *)
@@ -89,7 +90,8 @@ Qed.
 Lemma spawn_loop_ok n g : forall c acc,
   Post (spawn_loop n g c acc)
        (fun orgs => exists news, orgs = acc ++ news /\ map o_key news = zrange c (c + Z.of_nat n) /\
-                                 map ogid news = zrange c (c + Z.of_nat n)).
+                                 map ogid news = zrange c (c + Z.of_nat n) /\
+                                 Forall (fun y => o_elim y = false) news).
 Proof.
   induction n as [|n IH]; intros c acc; cbn [spawn_loop].
   - apply post_ret. exists []. rewrite app_nil_r, Z.add_0_r, zrange_nil. auto.
@@ -98,14 +100,15 @@ Proof.
     { unfold duplicate in Hd. rbind Hd as gs Hgs. rbind Hd as ms Hms. now injection Hd as <-. }
     eapply post_bind_strong with (P := fun r => gid (fst r) = c).
     + intros s0 [g' b] s1 Hm. apply mutate_link_weights_frame in Hm. cbn. destruct Hm as (_ & E & _). congruence.
-    + intros r Er s0 orgs s1 H. destruct (IH _ _ _ _ _ H) as (news & -> & K & G).
+    + intros r Er s0 orgs s1 H. destruct (IH _ _ _ _ _ H) as (news & -> & K & G & Fe).
       exists (new_baby c (fst r) 1 :: news). rewrite <- app_assoc. split; [reflexivity|].
       rewrite (zrange_cons c) by lia. cbn [map]. replace (c + Z.of_nat (S n)) with (c + 1 + Z.of_nat n) by lia.
-      rewrite K, G. unfold ogid. cbn. now rewrite Er.
+      rewrite K, G. unfold ogid. cbn. rewrite Er. splits; auto.
 Qed.
 
 Record spawned (o : options) (p : population) : Prop := {
   sw_part : Part p;
+  sw_clean : Fresh p;
   sw_size : zlen (p_orgs p) = o_pop_size o;
   sw_orgs : p_orgs p = zrange 0 (o_pop_size o);
   sw_gids : map (gid_at (p_heap p)) (p_orgs p) = zrange 0 (o_pop_size o);
@@ -115,7 +118,7 @@ Record spawned (o : options) (p : population) : Prop := {
 Theorem new_population_ok o g s p s' : new_population o g s = Ok (p, s') -> spawned o p.
 Proof.
   unfold new_population. destruct (Z.leb_spec (o_pop_size o) 0) as [|Hpos]; [discriminate|]. intros H.
-  mbind H as orgs s1 Hsp H. apply spawn_loop_ok in Hsp. destruct Hsp as (news & E & K & G). cbn in E. subst news.
+  mbind H as orgs s1 Hsp H. apply spawn_loop_ok in Hsp. destruct Hsp as (news & E & K & G & Fe). cbn in E. subst news.
   rewrite Z2Nat.id, Z.add_0_l in K, G by lia.
   mbind H as ln s2 H1 H. mbind H as ni s3 H2 H. mbind H as u s4 H3 H.
   apply lift_ok in H. destruct H as [H _]. unfold speciate in H.
@@ -126,7 +129,7 @@ Proof.
   assert (Hn : NoDup (map o_key orgs)) by (rewrite K; apply zrange_nodup).
   assert (W0 : Wf (all_sp p0) (p_heap p0) (fun _ => False)).
   { constructor; cbn; try tauto. constructor. }
-  destruct (speciate_loop_ok _ _ _ _ _ H W0) as [W1 [S1 S2 S3 S4 S5 (nw & S6 & S6') S7 S8 S9 S10]].
+  destruct (speciate_loop_ok _ _ _ _ _ H W0) as [W1 [S1 S2 S3 S3' S4 S5 (nw & S6 & S6') S7 S8 S9 S10]].
   { tauto. } { apply zrange_nodup. } { intros y []. }
   cbn in *.
   assert (Eall : all_sp p = p_species p) by (unfold all_sp; now rewrite S7, app_nil_r).
@@ -147,6 +150,9 @@ Proof.
       assert (Hi : In (o_key z) (map o_key orgs)) by now apply in_map.
       rewrite K in Hi. apply zrange_in in Hi. lia.
     + exact S7.
+  - intros k z Hk Hz. pose proof (hview_get o_elim _ _ _ Hz) as V. rewrite S3' in V.
+    apply hview_some in V. destruct V as (z0 & Hz0 & <-). apply hget_in in Hz0.
+    rewrite Forall_forall in Fe. now apply Fe.
   - rewrite S8. unfold zlen. rewrite zrange_length. lia.
   - exact S8.
   - rewrite S8. exact Eg.
@@ -159,14 +165,15 @@ Qed.
 
 (* ---------- the evaluator only writes fitness values ---------- *)
 Lemma set_fitness_ok : forall ks fs h h',
-  set_fitness h ks fs = Ok h' -> hframe o_species h h' /\ hframe ogid h h'.
+  set_fitness h ks fs = Ok h' -> hframe o_species h h' /\ hframe ogid h h' /\ hframe o_elim h h'.
 Proof.
   induction ks as [|k ks IH]; intros fs h h' H; cbn [set_fitness] in H.
-  - injection H as <-. split; apply hframe_refl.
-  - destruct fs as [|f fs]; [injection H as <-; split; apply hframe_refl|].
-    rbind H as x Hx. pose proof (hget_key _ _ _ Hx) as Ek. apply IH in H. destruct H as [F1 F2]. split.
+  - injection H as <-. splits; apply hframe_refl.
+  - destruct fs as [|f fs]; [injection H as <-; splits; apply hframe_refl|].
+    rbind H as x Hx. pose proof (hget_key _ _ _ Hx) as Ek. apply IH in H. destruct H as (F1 & F2 & F3). splits.
     + eapply hframe_trans; [|exact F1]. apply (hframe_hset_get o_species _ x); [|reflexivity]. cbn. now rewrite Ek.
     + eapply hframe_trans; [|exact F2]. apply (hframe_hset_get ogid _ x); [|reflexivity]. cbn. now rewrite Ek.
+    + eapply hframe_trans; [|exact F3]. apply (hframe_hset_get o_elim _ x); [|reflexivity]. cbn. now rewrite Ek.
 Qed.
 
 Lemma Part_frame p h' :
@@ -180,7 +187,14 @@ Proof.
 Qed.
 
 Theorem set_fitness_part p fs h' : Part p -> set_fitness (p_heap p) (p_orgs p) fs = Ok h' -> Part (p_with_heap p h').
-Proof. intros HP H. apply set_fitness_ok in H. destruct H. now apply Part_frame. Qed.
+Proof. intros HP H. apply set_fitness_ok in H. destruct H as (F1 & F2 & _). now apply Part_frame. Qed.
+
+Theorem set_fitness_fresh p fs h' : Fresh p -> set_fitness (p_heap p) (p_orgs p) fs = Ok h' -> Fresh (p_with_heap p h').
+Proof.
+  intros Fr H. apply set_fitness_ok in H. destruct H as (_ & _ & F3). intros k x Hk Hx. cbn in Hk, Hx.
+  pose proof (hview_get o_elim _ _ _ Hx) as V. rewrite F3 in V. apply hview_some in V.
+  destruct V as (y & Hy & <-). eapply Fr; eauto.
+Qed.
 
 (* ---------- any number of epochs ---------- *)
 (* one entry per epoch: the fitness values the evaluator assigns (in Population.Organisms order) and
@@ -197,6 +211,7 @@ Fixpoint run_epochs (o : options) (steps : list (list float * Z)) (p : populatio
 
 Record history_post (o : options) (n : nat) (p p' : population) : Prop := {
   hp_part : Part p';
+  hp_clean : Fresh p -> Fresh p';
   hp_size : n <> O -> zlen (p_orgs p') = o_pop_size o;
   hp_gids : n <> O -> map (gid_at (p_heap p')) (p_orgs p') = zrange 0 (o_pop_size o);
   hp_fresh : n <> O -> forall k, In k (p_orgs p') -> p_next_key p <= k;
@@ -221,12 +236,12 @@ Proof.
   - rbind H as h Hh. rbind H as r Hr. destruct r as [[p1 x1] s1].
     pose proof (set_fitness_part _ _ _ HP Hh) as HP0.
     apply next_epoch_step in Hr; [|exact HP0]. cbn in Hr.
-    destruct Hr as [E1 E2 E3 E4 E5 E6 E7 E8 E9]. cbn in *.
+    destruct Hr as [E1 E1' E2 E3 E4 E5 E6 E7 E8 E9]. cbn in *.
     assert (Hage1 : forall y, In y (p_species p1) -> 1 <= sp_age y).
     { intros y Hy. destruct (Z.le_gt_cases (sp_id y) (p_last_species p)) as [Hle|Hgt].
       - destruct (E6 _ Hy Hle) as (s0 & Hs0 & _ & Ea). specialize (Hage _ Hs0). destruct (sp_novel s0); lia.
       - rewrite (E7 _ Hy); lia. }
-    destruct (IH _ _ _ _ _ _ H E1 Hage1) as [[I1 I2 I3 I4 I5 I6 I7 I8] Hage'].
+    destruct (IH _ _ _ _ _ _ H E1 Hage1) as [[I1 I1' I2 I3 I4 I5 I6 I7 I8] Hage'].
     split; [|exact Hage']. constructor; auto.
     + intros _. destruct rest as [|st rest']; [|apply I2; discriminate]. cbn in H. now injection H as <- _ _.
     + intros _. destruct rest as [|st rest']; [|apply I3; discriminate]. cbn in H. now injection H as <- _ _.
@@ -273,7 +288,7 @@ Qed.
 
 Theorem next_epoch_step_full o gen p x s p' x' s' :
   next_epoch o gen p x s = Ok ((p', x'), s') -> Part p ->
-  Part p' /\ zlen (p_orgs p') = o_pop_size o /\
+  Part p' /\ Fresh p' /\ zlen (p_orgs p') = o_pop_size o /\
   (forall k, In k (p_orgs p') -> p_next_key p <= k /\ ~ In k (p_orgs p)) /\
   p_last_species p <= p_last_species p' /\
   (forall s1, In s1 (p_species p') -> sp_id s1 <= p_last_species p ->
@@ -283,14 +298,14 @@ Theorem next_epoch_step_full o gen p x s p' x' s' :
   (forall s1, In s1 (p_species p') -> sp_novel s1 = false) /\
   map (gid_at (p_heap p')) (p_orgs p') = zrange 0 (o_pop_size o).
 Proof.
-  intros H HP. destruct (next_epoch_step _ _ _ _ _ _ _ _ H HP) as [E1 E2 E3 E4 E5 E6 E7 E8 E9].
+  intros H HP. destruct (next_epoch_step _ _ _ _ _ _ _ _ H HP) as [E1 E1' E2 E3 E4 E5 E6 E7 E8 E9].
   splits; auto. intros k Hk. split; [now apply E3|]. intros Ho. apply (Part_orgs_lt _ _ HP) in Ho.
   specialize (E3 _ Hk). lia.
 Qed.
 
 Theorem new_population_full o g s p s' :
   new_population o g s = Ok (p, s') ->
-  Part p /\ zlen (p_orgs p) = o_pop_size o /\
+  Part p /\ Fresh p /\ zlen (p_orgs p) = o_pop_size o /\
   map (gid_at (p_heap p)) (p_orgs p) = zrange 0 (o_pop_size o) /\
   (forall y, In y (p_species p) -> sp_age y = 1 /\ sp_novel y = true /\ 1 <= sp_id y).
 Proof. intros H. destruct (new_population_ok _ _ _ _ _ H). splits; auto. Qed.
@@ -298,7 +313,7 @@ Proof. intros H. destruct (new_population_ok _ _ _ _ _ H). splits; auto. Qed.
 Theorem run_epochs_full o steps p x s p' x' s' :
   run_epochs o steps p x s = Ok (p', x', s') -> Part p ->
   (forall y, In y (p_species p) -> 1 <= sp_age y) ->
-  Part p' /\
+  Part p' /\ (Fresh p -> Fresh p') /\
   (steps <> [] -> zlen (p_orgs p') = o_pop_size o /\
                   map (gid_at (p_heap p')) (p_orgs p') = zrange 0 (o_pop_size o) /\
                   forall k, In k (p_orgs p') -> p_next_key p <= k /\ ~ In k (p_orgs p)) /\
@@ -311,7 +326,7 @@ Theorem run_epochs_full o steps p x s p' x' s' :
      1 <= sp_age s1 <= Z.of_nat (length steps)) /\
   (forall y, In y (p_species p') -> 1 <= sp_age y).
 Proof.
-  intros H HP Hage. destruct (run_epochs_ok _ _ _ _ _ _ _ _ H HP Hage) as [[I1 I2 I3 I4 I5 I6 I7 I8] Hage'].
+  intros H HP Hage. destruct (run_epochs_ok _ _ _ _ _ _ _ _ H HP Hage) as [[I1 I1' I2 I3 I4 I5 I6 I7 I8] Hage'].
   assert (Hne : steps <> [] -> length steps <> O) by (destruct steps; [tauto|discriminate]).
   splits; auto. intros Hs. specialize (Hne Hs). splits; auto.
   intros k Hk. split; [now apply I4|]. intros Ho. apply (Part_orgs_lt _ _ HP) in Ho.
